@@ -98,6 +98,12 @@ def instances_for(prop, tier, seed):
     if prop == 'C18':
         for verdict in ('OK', 'ACK', 'close', 'garbage'):
             out.append({'family': 'password', 'verdict': verdict})
+        # the optional-password entry point: a given password (also the empty one) is sent, None sends none
+        for verdict in ('OK', 'ACK'):
+            out.append({'family': 'password', 'verdict': verdict, 'entry': 'opt', 'pw': ''})
+            out.append({'family': 'password', 'verdict': verdict, 'entry': 'opt', 'pw': 'hunter 2'})
+        out.append({'family': 'password', 'verdict': 'OK', 'entry': 'opt', 'pw': None})
+        out.append({'family': 'password', 'verdict': 'ACK', 'entry': 'plain', 'pw': ''})
     return out
 
 # ---------------------------------------------------------------------------- running a scenario
@@ -463,9 +469,13 @@ def run_art(P, res, pl):
 # ---------------------------------------------------------------------------- C18 password exchange
 def run_password(P, res, pl):
     verdict = pl['verdict']
+    pw = pl.get('pw', 'hunter 2')
+    first = None if pw is None else (b'password "hunter 2"' if pw else b'password ')         # (an empty argument renders as nothing: F-C06-b)
     def harness(I):
         set_cap(I, 64)
-        S = Session(I, P, [[]], deliver='lines', password=b'hunter 2')
+        S = Session(I, P, [[]], deliver='lines', password=None if pw is None else pw.encode())
+        if pl.get('entry') == 'opt':
+            S.connect_entry = 'opt'
         S.server.password = verdict
         r = S.connect()
         if r.variant == 'Ok':
@@ -478,8 +488,11 @@ def run_password(P, res, pl):
         S, r = pr.value
         lines = S.server.lines
         bad = None
-        if not lines or lines[0] != b'password "hunter 2"':
-            bad = 'first line written is %r, not the password' % (lines[:1],)
+        if first is None:
+            if r.variant != 'Ok' or lines[:1] != [b'idle']:
+                bad = 'no password given: result %s, lines %s' % (r.variant, lines)
+        elif not lines or lines[0] != first:
+            bad = 'first line written is %r, not the password line %r' % (lines[:1], first)
         elif verdict == 'OK':
             if r.variant != 'Ok' or lines[1:2] != [b'idle']:
                 bad = 'accepted password: result %s, lines %s' % (r.variant, lines)
@@ -566,13 +579,18 @@ def replay_for(prop, rec):
     pl = inp['scenario']
     tries = 6
     if pl.get('family') == 'password':
-        out = run_replay(['client', '', 'hunter 2', pl['verdict'], '-'])
+        pw = pl.get('pw', 'hunter 2')
+        spec = ('opt:' if pl.get('entry') == 'opt' else 'pw:') + ('-' if pw is None else hexs(pw.encode()))
+        out = run_replay(['client', '', spec, pl['verdict'], '-'])
         if 'panic' in out:
             return True, 'native run panics'
         lines = out.get('line', [])
         conn = out.get('connect', ['?'])[0]
         v = pl['verdict']
-        bad = (not lines or lines[0] != 'password "hunter 2"' or (v == 'OK' and (conn != 'Ok' or lines[1:2] != ['idle'])) or
+        if pw is None:
+            return (conn != 'Ok' or lines[:1] != ['idle']), 'native: connect=%s lines=%s' % (conn, lines)
+        first = 'password "hunter 2"' if pw else 'password '
+        bad = (not lines or lines[0] != first or (v == 'OK' and (conn != 'Ok' or lines[1:2] != ['idle'])) or
                (v != 'OK' and (not conn.startswith('Err') or len(lines) != 1 or (('IncorrectPassword' in conn) != (v == 'ACK')))))
         return bad, 'native: connect=%s lines=%s' % (conn, lines)
     if pl.get('family') == 'art':
